@@ -11,19 +11,36 @@ READERS = ["util::get_line_count", "util::get_sha1_file_hash", "util::get_sha256
            "util::get_mp3_metadata", "util::get_metadata", "function::get_value", "util::canonical_path"]
 
 
+WALK_OPS = ("canonical_path", "read_dir", "file_type", "visit_dir", "entry")
+
+
 def error_branches(hir):
-    """(kind, node, body) for every branch that handles a failure: match arm Err(..), `if x.is_err()`, else of `if let Ok`"""
+    """(kind, node, body) for every branch that handles a failure of a walking operation (canonicalisation, read_dir, a
+    listed entry, file_type, a nested visit_dir): match arm Err(..), `if x.is_err()`, `if let Err(..) = x`, else of
+    `if let Ok(..) = x`.  Failures of writing the output are C17-R4's business and are not collected here."""
+    locs = Locals(hir)
+
+    def subject(n):
+        r = render(locs.chase(peel(n, methods=False)))
+        r2 = render(n)
+        if any(w in r or w in r2 for w in ("write", "stdout", "results_writer")):
+            return None
+        return r if any(w in r for w in WALK_OPS) else (r2 if any(w in r2 for w in WALK_OPS) else None)
+
     out = []
     for x in walk_exprs(hir):
         if x["k"] == "Match" and x.get("src") == "Normal":
+            sj = subject(x["scrut"])
             for a in x["arms"]:
-                if any(render_pat(p).startswith("Result::Err") for p in pat_alts(a["pat"])):
+                if sj and any(render_pat(p).lstrip("&").startswith("Result::Err") for p in pat_alts(a["pat"])):
                     out.append(("err-arm of `%s`" % render(x["scrut"])[:40], a["body"], a["body"]))
         if x["k"] == "If":
             c = peel(x["c"], methods=False)
-            if c["k"] == "MCall" and c["m"] == "is_err":
+            if c["k"] == "MCall" and c["m"] == "is_err" and subject(c["recv"]):
                 out.append(("`%s`" % render(c)[:40], x["t"], x["t"]))
-            if c["k"] == "LetE" and render_pat(c["pat"]).startswith("Result::Ok") and "e" in x and \
+            if c["k"] == "LetE" and render_pat(c["pat"]).lstrip("&").startswith("Result::Err") and subject(c["init"]):
+                out.append(("`if let Err` of `%s`" % render(c["init"])[:40], x["t"], x["t"]))
+            if c["k"] == "LetE" and render_pat(c["pat"]).startswith("Result::Ok") and "e" in x and subject(c["init"]) and \
                     any(w in render(c["init"]) for w in ("result", "file_type", "read_dir")):
                 out.append(("else of `%s`" % render(c)[:40], x["e"], x["e"]))
     return out
@@ -63,7 +80,7 @@ def r1(ctx):
     for b in ctx.prog.bodies():
         for i, j, p, rv in b.assigns():
             if p["pr"] and p["pr"][-1] == ".error_count":
-                ws.append(b.name)
+                ws.extend(ctx.prog.owners(b.name))
     ok = set(ws) <= {VISIT_DIR, LSR, "searcher::Searcher::new"}
     ctx.obligation(ok)
     if not ok:
@@ -138,11 +155,9 @@ def r4(ctx):
     ctx.covered("writes to standard output in the search path (closed-pipe handling)", n, distinct_keys=["writes:%d" % n])
     ctx.floor(n, 6, "stdout writes in list_search_results / check_file", LSR)
     # a propagated error reaches exec_search, which treats BrokenPipe as a normal stop
-    eh = ctx.anchor_hir("exec_search")
-    ok = False
-    for x in walk_exprs(eh):
-        if x["k"] == "If" and "list_search_results" in render(x["c"]) and "BrokenPipe" in render(x["t"]):
-            ok = True
+    tbl, _why = c10.exec_search_table(ctx)
+    ok = tbl is not None and all(tbl[(True, "pipe", c)][0] == (0 if c == 0 else 1) and "PANIC" not in tbl[(True, "pipe", c)][1] for c in (0, 1, 5)) and \
+        all("PANIC" not in tbl[(True, "other", c)][1] for c in (0, 1, 5))
     ctx.obligation(ok)
     if not ok:
         ctx.violation("stdout/exec_search", ctx.where("exec_search"), "exec_search must not treat a closed output pipe as a failure (and must not unwrap the search result)")
